@@ -623,12 +623,17 @@ func (sm *SeatManager) Next() error {
 	sm.mu.Lock()
 	defer sm.mu.Unlock()
 
+	// A refused move leaves the button where it was
+	dealer := sm.dealer
+
 	if sm.nextDealer() == nil {
+		sm.dealer = dealer
 		return ErrInsufficientNumberOfPlayers
 	}
 
 	// Positions need a dealer and a big blind on two different seats
 	if sm.getPlayableSeatCount() < 2 {
+		sm.dealer = dealer
 		return ErrInsufficientNumberOfPlayers
 	}
 
